@@ -57,6 +57,9 @@ def run(idx, rep, tier):
         okq, whyq = lp.batch_quantifier(idx, l)
         rep.decide(okq, "batch-quantifier", "arnoldi_fact:cond", whyq, detail="" if okq is not False else "quantifier", locs=[idx.loc(fact.module, l.call)])
         basis_aliasing(idx, rep, l, "arnoldi_fact:body")
+        if cert.get("ok") is True:
+            from sa.krylov import breakdown_reference
+            breakdown_reference(idx, rep, fact, "breakdown-reference", "arnoldi_fact:cond", l, cert["counter_slot"])
     # ---- buffers: zeros, sized by the requested cap
     # roles by position in init_arnoldi's returned state (slot 0 = basis Q, slot 1 = Hessenberg H), not by local name
     bufs = {}
